@@ -1101,6 +1101,51 @@ func runCase(h *verifx.H, r *verifx.Rng, idx int) {
 	h.Stat("contents", int64(len(w.contents)))
 }
 
+// runWitness: the minimal histories of the defect class (one per entity type, plus one with a regrouping pass while two
+// metrics transiently carry the same name). Deterministic, four cases.
+func runWitness(h *verifx.H, r *verifx.Rng, idx int) {
+	w := &world{h: h, r: r, intern: map[tlmetadata.Event]int{}, ents: map[key]*entity{}, freed: map[int32][]string{}, tags: map[string]bool{}}
+	for i := 0; i < 2; i++ {
+		rep := &replica{up: 0}
+		rep.st = metajournal.MakeMetricsStorage(nil)
+		rep.j, _ = metajournal.LoadJournalFastSlice(&rep.file, 0, false, []metajournal.ApplyEvent{rep.st.ApplyEvent})
+		w.reps = append(w.reps, rep)
+	}
+	h.Op("new 2 0:0")
+	typ := []int32{format.MetricEvent, format.MetricsGroupEvent, format.NamespaceEvent, format.MetricEvent}[idx%4]
+	upto := 0
+	put := func(ent *entity, what string) {
+		if w.ents[ent.key] == nil {
+			w.ents[ent.key] = ent
+			w.keys = append(w.keys, ent.key)
+		}
+		w.ver++
+		e := tlmetadata.Event{Id: ent.key.id, Name: ent.name, EventType: ent.key.typ, Version: w.ver, UpdateTime: uint32(1000 + w.ver), Data: w.makeData(ent)}
+		w.commit(ent, e)
+		w.opSrc(e, &upto, what)
+	}
+	a := &entity{key: key{typ, 1}, name: "a"}
+	put(a, "create") // v1: A "a"
+	w.opDeliver(1, 1000, 800*1024, inf)
+	a.name = "b"
+	put(a, "rename") // v2: A -> "b"
+	b := &entity{key: key{typ, 2}, name: "a"}
+	put(b, "reuse") // v3: B takes "a"
+	cut := inf
+	if idx%4 == 3 {
+		g := &entity{key: key{format.MetricsGroupEvent, 5}, name: "a"}
+		put(g, "create") // v4: a group arrives in the same batch as B: regrouping pass with A("a", stale) and B("a")
+		cut = 2
+	}
+	a.data++
+	put(a, "edit") // A edited again: the journal now holds B before A
+	w.nt("name-reuse")
+	w.opDeliver(1, 1000, 800*1024, cut)
+	w.opDeliver(1, 1000, 800*1024, inf)
+	w.oracleSynced("drain")
+	h.Stat("cases.witness", 1)
+}
+
 func genLean() {
 	var b strings.Builder
 	b.WriteString("/- GENERATED by cmd/verif-c20 -mode=gen from /repo's working tree on every run of bin/check C20. Do not edit. -/\n")
@@ -1141,6 +1186,11 @@ func main() {
 		f, _ := os.Create("/tmp/C20/cpu.prof")
 		pprof.StartCPUProfile(f)
 		defer pprof.StopCPUProfile()
+	}
+	if h.Mode == "witness" {
+		h.Cases(func(i int, r *verifx.Rng) { runWitness(h, r, i) })
+		h.Done()
+		return
 	}
 	h.Cases(func(i int, r *verifx.Rng) { runCase(h, r, i) })
 	h.Done()
